@@ -176,12 +176,12 @@ Vel == /\ Is("vel")
        /\ vels' = Append(vels, Ev)
        /\ UNCHANGED <<tid, S, pc, step, parts, npid, born, hist, closed, dead, catch>>
 
-Move ==
-   /\ Is("move")
-   /\ LET pre == Ev.pre   post == Ev.post
+\* (idx, the matched stage requests, is bound by a quantifier over a singleton set in Move: TLC then evaluates FindStages once per
+\*  event; as a LET definition it was evaluated again for every particle that asked for its final velocity - quadratic cost)
+MoveBody(idx) ==
+      LET pre == Ev.pre   post == Ev.post
           n   == Len(pre.pid)
           shape == Len(post.pid) = n /\ Len(pre.x) = n /\ Len(post.x) = n /\ Len(post.y) = n /\ Len(post.alive) = n
-          idx == IF Stages > 0 /\ shape THEN FindStages(pre, 1, 1, <<>>) ELSE <<>>
           okst == Stages = 0 \/ idx # <<>>
           uv(i) == IF Stages = 0 THEN <<0, 0>> ELSE FinalUV(idx, i)
           A == { i \in 1..n : Get(pre.alive, i) = TRUE }
@@ -206,6 +206,11 @@ Move ==
             THEN PrintT(<<"COUNT", "moved", Cardinality({i \in A : oc[i] = "moved"})>>) /\ PrintT(<<"COUNT", "killed", Cardinality({i \in A : oc[i] = "killed"})>>)
                  /\ PrintT(<<"COUNT", "cancelled", Cardinality({i \in A : oc[i] = "cancelled"})>>) /\ PrintT(<<"COUNT", "inactive", Cardinality({i \in A : oc[i] = "inactive"})>>)
             ELSE TRUE
+Move ==
+   /\ Is("move")
+   /\ LET pre == Ev.pre   n == Len(pre.pid)
+          shape == Len(Ev.post.pid) = n /\ Len(pre.x) = n /\ Len(Ev.post.x) = n /\ Len(Ev.post.y) = n /\ Len(Ev.post.alive) = n
+      IN \E idx \in { IF Stages > 0 /\ shape THEN FindStages(pre, 1, 1, <<>>) ELSE <<>> } : MoveBody(idx)
    /\ pc' = "ibm" /\ vels' = <<>>
    /\ UNCHANGED <<tid, S, step, npid, born, hist, closed, catch>>
 
@@ -273,9 +278,9 @@ PvarsOK(fs) == \A k \in 1..Len(fs) :
        np == IF last >= 1 /\ last <= Len(hist) THEN hist[last].npid ELSE 0
    IN /\ Len(fs[k].pv_release_time) >= np /\ Len(fs[k].pv_src) >= np
       /\ \A p \in 1..np : fs[k].pv_release_time[p] = born[p].rt /\ fs[k].pv_src[p] = born[p].src
-Files ==
-   /\ Is("files")
-   /\ LET fs == Ev.files   all == Concat(fs)   m == Min(Len(all), Len(hist)) IN
+PidSetOf(r) == { r.pid[i] : i \in 1..Len(r.pid) }
+FilesBody(fs, all) ==           \* `all` (the records of all files in order) is bound by a singleton quantifier in Files: evaluated once
+      LET m == Min(Len(all), Len(hist)) IN
       Mark(All(<<Check("files.closed_once", \A md \in {"grid", "forcing", "release", "tracker", "ibm", "output"} :
                                                  Cardinality({ i \in 1..Len(closed) : closed[i] = md }) = 1),
                  Check("files.count", Len(all) = Len(hist)),
@@ -292,9 +297,12 @@ Files ==
                  Check("files.pvars", S.out.pvars => PvarsOK(fs)),
                  Check("files.pid_sorted", \A k \in 1..Len(all) : \A i \in 1..(Len(all[k].pid) - 1) : all[k].pid[i] < all[k].pid[i + 1]),
                  Check("files.pid_ge_index", \A k \in 1..Len(all) : \A i \in 1..Len(all[k].pid) : all[k].pid[i] >= i - 1),
-                 Check("files.dead_stay_dead", \A k \in 2..Len(all) : \A p \in 1..Len(all[k].pid) :
-                          (\E k0 \in 1..(k - 1) : \E p0 \in 1..Len(all[k0].pid) : all[k0].pid[p0] = all[k].pid[p])
-                             => \E p1 \in 1..Len(all[k - 1].pid) : all[k - 1].pid[p1] = all[k].pid[p])>>))
+                 \* an identifier that was in an earlier record and is in this one was in the record before this one, too
+                 Check("files.dead_stay_dead", \A k \in 2..Len(all) :
+                          (PidSetOf(all[k]) \cap UNION { PidSetOf(all[k0]) : k0 \in 1..(k - 1) }) \subseteq PidSetOf(all[k - 1]))>>))
+Files ==
+   /\ Is("files")
+   /\ \E all \in { Concat(Ev.files) } : FilesBody(Ev.files, all)
    /\ pc' = "done"
    /\ PrintT(<<"COUNT", "records", Len(hist)>>)
    /\ UNCHANGED <<tid, S, step, parts, npid, born, vels, hist, closed, dead, catch>>
